@@ -96,6 +96,13 @@ def case(ctx, i):
             if is_priv != want_private:
                 q = None
                 continue
+            if e.kind == "change-member-type" and " -> " in (e.detail or ""):
+                # a same-size change (int <-> float) can be classified harmless on a path through a union (the C05 finding):
+                # only size-changing member type changes promise a report here
+                o_, n_ = e.detail.split(" -> ")
+                if mutate._SIZES.get(o_) == mutate._SIZES.get(n_):
+                    q = None
+                    continue
             if want_both and attempt < 8 and not near_privates(rec):
                 q = None
                 continue
